@@ -146,6 +146,9 @@ class Sem:
             return self.box(v)
         if v.ty == T.VAL:
             return self.unbox(v, ty)
+        if v.ty.kind == "opt" and ty.kind != "opt":
+            inner = v.ty.args[0]
+            return self.coerce(SV(S.the(inner, v.t), inner), ty, what)
         if ty == T.IDENT and v.ty == T.QN:
             # a QualifiedName used where only its URI matters
             return SV("(qn_uri %s)" % v.t, T.IDENT)
